@@ -244,6 +244,13 @@ def preStageD (tbl : Table) (rq : Request) (critOpt : Bool) (os : Opts) : M.Jump
         else M.hopBlock rq true true os
   else M.hopBlock rq false true os
 
+/-- fail_response entered from the delayed invocation: coap_new_error_response builds an ACK for a Confirmable request;
+`if (response && async && response->type == COAP_MESSAGE_ACK) response->type = COAP_MESSAGE_CON` (a separate response
+is never an ACK: its message id is the copy's, not one the client used), then `goto skip_handler` -/
+def failResponseD (cfg : Server.Cfg) (rq : Request) (os : Opts) (resp : Nat) (resource : Option Nat) : Outcome :=
+  let r := M.errReply rq.msg os resp M.Filter.empty
+  ⟨true, M.deliver cfg rq resource false (if r.type = ACK then { r with type := CON } else r), none⟩
+
 def handleRequestD (cfg : Server.Cfg) (tbl : Table) (m : Msg) (v : Verdict) : Outcome :=
   let rq : Request := ⟨false, m, v, .absent⟩
   if v.code = 168 then Outcome.outOfScope else                     -- D8
@@ -251,14 +258,14 @@ def handleRequestD (cfg : Server.Cfg) (tbl : Table) (m : Msg) (v : Verdict) : Ou
   -- libcoap then transmits a Confirmable 0.00 message that still carries the token)
   if v.code = 0 then Outcome.outOfScope else
   match preStageD tbl rq false m.opts with
-  | .fail resp res => M.failResponse cfg rq m.opts resp res
+  | .fail resp res => failResponseD cfg rq m.opts resp res
   | .ignore => Outcome.nothing
   | .go isProxy os' path =>
     match M.selectStage tbl m.code isProxy path with
-    | .inl resp => M.failResponse cfg rq os' resp none
+    | .inl resp => failResponseD cfg rq os' resp none
     | .inr sel =>
       match M.checkStage cfg rq os' sel with
-      | some resp => M.failResponse cfg rq os' resp (some sel.flags)
+      | some resp => failResponseD cfg rq os' resp (some sel.flags)
       | none => runStageD cfg rq os' path sel
 
 /-- the machine's decision procedures for a server with configuration `cfg` and resource table `tbl` (unicast, no
@@ -268,5 +275,29 @@ def serverDec (cfg : Server.Cfg) (tbl : Table) : Dec :=
   -- and a message id of its own (C11's state)
   ⟨fun hit rq => if hasOpt rq.msg.opts 6 then Outcome.outOfScope else M.serverDecisionA hit false cfg tbl rq,
    handleRequestD cfg tbl⟩
+
+/-! ### the application changes the resource table between the two passes
+libcoap keeps no resource pointer in a coap_async_t; coap_delete_resource() does not look at `context->async_state`.
+The machine with a table that changes: every `Ev` runs with the decision procedures of the table as it is then. -/
+/-- coap_delete_resource on the k-th ordinary resource of the table -/
+def delRes (tbl : Table) (k : Nat) : Table := { tbl with res := tbl.res.eraseIdx k }
+
+inductive EvT where
+  | ev (e : Ev)
+  | delRes (k : Nat)
+  deriving DecidableEq, Repr
+
+structure StT where
+  st : St
+  tbl : Table
+  deriving DecidableEq, Repr
+
+def stepT (c : Cfg) (cfg : Server.Cfg) (x : StT) : EvT → StT × Out
+  | .ev e => let y := step c (serverDec cfg x.tbl) x.st e; (⟨y.1, x.tbl⟩, y.2)
+  | .delRes k => (⟨x.st, delRes x.tbl k⟩, ⟨none, none, [], none, [], none⟩)
+
+def finalT (c : Cfg) (cfg : Server.Cfg) : StT → List EvT → StT
+  | x, [] => x
+  | x, ev :: r => finalT c cfg (stepT c cfg x ev).1 r
 
 end Coap.Async
